@@ -8,16 +8,19 @@ force = set(sys.argv[1:])
 results = {}
 if os.path.exists("/tmp/seed/results.txt"):
     for l in open("/tmp/seed/results.txt"):
-        m = re.match(r"/tmp/seed/(C\d+)/out/(\d) :: (.*?) :: (\d+) violations ::\s*(.*)", l.strip())
+        m = re.match(r"/tmp/seed/(C\d+)(-r2)?/out/(\d) :: (.*?) :: (\d+) violations ::\s*(.*)", l.strip())
         if m:
-            results["%s-%s" % (m.group(1), m.group(2))] = {"runs": m.group(3).strip(), "violations": int(m.group(4)), "signatures": [x.strip() for x in (m.group(5).split("|") if "|" in m.group(5) else m.group(5).split()) if x.strip()]}
+            n_ = int(m.group(3)) + (2 if m.group(2) else 0)
+            results["%s-%d" % (m.group(1), n_)] = {"runs": m.group(4).strip(), "violations": int(m.group(5)), "signatures": [x.strip() for x in (m.group(6).split("|") if "|" in m.group(6) else m.group(6).split()) if x.strip()]}
 head = subprocess.run(["git", "-C", "/repo", "rev-parse", "--short", "HEAD"], capture_output=True, text=True).stdout.strip()
-for pid in sorted(os.listdir("/tmp/seed")):
-    if not re.match(r"C\d+$", pid):
+for job in sorted(os.listdir("/tmp/seed")):
+    mj = re.match(r"(C\d+)(-r2)?$", job)
+    if not mj:
         continue
+    pid = mj.group(1)
     for n in ("1", "2"):
-        d = "/tmp/seed/%s/out/%s" % (pid, n)
-        key = "%s-%s" % (pid, n)
+        d = "/tmp/seed/%s/out/%s" % (job, n)
+        key = "%s-%d" % (pid, int(n) + (2 if mj.group(2) else 0))
         if not os.path.exists(d + "/patch.diff"):
             continue
         vlog = open(d + "/verify.log").read() if os.path.exists(d + "/verify.log") else ""
